@@ -912,7 +912,10 @@ struct mixed_names
 static __attribute__((noinline, cold)) void fail_cmp_mixed(const char* fn, uint16_t first, uint16_t second, bool expect, bool got)
 {
     if (throttled(fn, unsigned(DEC[first].cls) | unsigned(DEC[first].neg) << 3 | unsigned(DEC[second].cls) << 4 | unsigned(DEC[second].neg) << 7, int(got))) return;
-    vf::violation(std::string("C08/") + fn + g_sfx + "/" + bclass(first) + "," + bclass(second) + "/wrong-result",
+    // coarse operand class (the type is already in the function name): one bug should not produce hundreds of signatures
+    const float f1 = FLT[first], f2 = FLT[second];
+    const char* cls = (f1 != f1 || f2 != f2) ? "nan-operand" : (f1 == 0 && f2 == 0) ? "both-zero" : f1 == f2 ? "equal" : f1 < f2 ? "less" : "greater";
+    vf::violation(std::string("C08/") + fn + g_sfx + "/" + cls + "/wrong-result",
                   std::string("[") + BLD() + "] " + fn + " on operands " + h2s(first) + ", " + h2s(second) + " (the non-half operand holds exactly that value) returned " + (got ? "true" : "false") +
                       ", the float comparison of the converted operands says " + (expect ? "true" : "false"),
                   RP(fn, {hx(first, 4), hx(second, 4)}));
